@@ -10,7 +10,9 @@ import tlc
 
 PROPS = {"C19"}
 NA = -999999999
-TESTNAME = {"gross": "gross_range_test", "spike": "spike_test", "roc": "rate_of_change_test"}
+TESTNAME = {"gross": "gross_range_test", "spike": "spike_test", "roc": "rate_of_change_test", "valid": "valid_range_test",
+            "press": "pressure_increasing_test"}
+MODOF = {"valid": "axds", "press": "argo"}
 IDS = ["a", "a.b", "a_b", "1x", "_y", "b", "T-1", "x y"]
 
 
@@ -48,7 +50,7 @@ def run_save(table, config, opts, rollup):
     pipe_exec.install()
     e = {"ev": "save", "table": table, "config": config, "opts": opts, "frame": [], "exc": "",
          "rollup": {"asked": rollup, "found": False, "vals": []}}
-    names = {"qartod": chars("qartod")}
+    names = {"qartod": chars("qartod"), "axds": chars("axds"), "argo": chars("argo")}
     for sid in table["data"]:
         names[sid] = chars(sid)
     for c in config:
@@ -67,7 +69,8 @@ def run_save(table, config, opts, rollup):
             elif it["kind"] == "test":
                 out.append(TESTNAME[it["v"]])
             else:
-                out.append(getattr(qartod, TESTNAME[it["v"]]))
+                import importlib
+                out.append(getattr(importlib.import_module("ioos_qc." + MODOF.get(it["v"], "qartod")), TESTNAME[it["v"]]))
         return out
     try:
         stream = PandasStream(pipe_exec.frame(table))
@@ -110,7 +113,8 @@ def check(ctx):
     pairs = [("a.b", "a_b"), ("a_b", "a.b")] + pairs        # the colliding ids are always exercised
     item_sets = lambda s1, s2: [[], [{"kind": "stream", "v": s1}], [{"kind": "test", "v": "spike"}],  # noqa: E731
                                 [{"kind": "func", "v": "gross"}, {"kind": "stream", "v": s2}],
-                                [{"kind": "func", "v": "spike"}], [{"kind": "stream", "v": "zzz"}]]
+                                [{"kind": "func", "v": "spike"}], [{"kind": "stream", "v": "zzz"}],
+                                [{"kind": "test", "v": "valid"}], [{"kind": "func", "v": "valid"}, {"kind": "test", "v": "gross"}]]
     n_cases = ctx.pick(120, 1500)
     k = 0
     for (s1, s2) in itertools.cycle(pairs):
@@ -118,7 +122,7 @@ def check(ctx):
             break
         n = r.randint(2, 6)
         t = [10 * i for i in range(n)]
-        tb = {"t": t, "data": {s1: [r.choice([0, 1, 5, 7]) for _ in range(n)], s2: [r.choice([0, 1, 3]) for _ in range(n)]},
+        tb = {"t": t, "hastime": True, "data": {s1: [r.choice([0, 1, 5, 7]) for _ in range(n)], s2: [r.choice([0, 1, 3]) for _ in range(n)]},
               "z": [r.randint(0, 9) for _ in range(n)], "lat": [r.randint(-5, 5) for _ in range(n)],
               "lon": [r.randint(-5, 5) for _ in range(n)]}
         if r.random() < 0.15:
@@ -129,11 +133,13 @@ def check(ctx):
         G = lambda s: {"stream": s, "fn": "gross", "p": {"fail": [0, 4], "susp": []}}  # noqa: E731
         S = lambda s: {"stream": s, "fn": "spike", "p": {"st": [1, 1], "ft": [3, 1], "method": "average"}}  # noqa: E731
         R = lambda s: {"stream": s, "fn": "roc", "p": {"thr": [1, 10]}}  # noqa: E731
+        V = lambda s: {"stream": s, "fn": "valid", "p": {"lo": 1, "hi": NA, "sincl": True, "eincl": False, "kind": "num"}}  # noqa: E731
+        P = lambda s: {"stream": s, "fn": "press", "p": {"none": 0}}  # noqa: E731
         layout = r.choice(["all", "split", "hole"])
         if layout == "all":
-            cfg = [{"win": [NA, NA], "entries": [G(s1), S(s1), G(s2)]}]
+            cfg = [{"win": [NA, NA], "entries": [G(s1), S(s1), G(s2), V(s2)]}]
         elif layout == "split":
-            cfg = [{"win": [NA, cut], "entries": [G(s1), S(s1)]}, {"win": [cut, NA], "entries": [G(s1), R(s2)]}]
+            cfg = [{"win": [NA, cut], "entries": [G(s1), S(s1), V(s2)]}, {"win": [cut, NA], "entries": [G(s1), R(s2), V(s1)]}]
         else:
             cfg = [{"win": [NA, cut], "entries": [G(s1), G(s2)]}]
         its = item_sets(s1, s2)
